@@ -16,7 +16,7 @@ from checks import wave_common as W
 PROP = 'C04'
 LEVEL = 'exploration'
 RULE = ('W1: every primitive x every tuple of input waveforms on a time grid x delay-table combinations x output capacities; W2: family circuits x {0,1,R,F} stimuli and '
-        'multi-transition inputs x delay plans x capacities; each case is re-run shifted by delta in {-1, 5.25} (thorough 1/4, 1, 5, 64, -1, -3.5: to time 0 and below) and scaled by 2^k, k in {-12, 10} '
+        'multi-transition inputs x delay plans x capacities; each case is re-run shifted by delta in {-1, 5.25} (thorough 1/4, 1, 5, 64, -1, -3.5: to time 0 and below) and scaled by 2^k, k in {-24, 10}; the first shifted run re-uses the simulator object of the unshifted run; every W2 case also with c_reuse=True (windows at ports and state elements) '
         '(thorough -24, -12, -2, 1, 3, 14); oracles: window [min(first_i + min d_i), max(last_i + max d_i)], exact shift, exact scale, strict monotonicity for polarity-independent delays; '
         'distinct_nontrivial = distinct (case, output waveform) signatures with >= 1 transition')
 ASSUMPTIONS = ['dyadic times/delays: every float operation is exact, so "exactly" is meaningful', 'delays >= 0; input waveforms strictly increasing',
